@@ -52,3 +52,33 @@ Definition compact_key_plain_stmt : Prop :=
   forall bottom retention now v vs, desc (v :: vs) ->
     compact_key bottom false retention now [] (v :: vs) =
     if bottom && is_hard (vkind v) then [] else [v].
+
+(* ---- version history (C10) ------------------------------------------------------------- *)
+(* what survives the barriers in a NEWEST-first version list: everything newer than the newest
+   barrier, plus the barrier itself when it is a replace *)
+Fixpoint hist_of (vs : list ver) : list ver :=
+  match vs with
+  | [] => []
+  | v :: r => if is_hard (vkind v) then [] else if is_rep (vkind v) then [v] else v :: hist_of r
+  end.
+(* the history a reader at horizon s sees *)
+Definition history_at (vs : list ver) (s : N) : list ver := hist_of (filter (fun v => vseq v <=? s) vs).
+
+(* C10 core (unlimited retention): with versioning enabled a compaction changes the history of no
+   reader that can exist — registered snapshots and horizons at or above the newest version —
+   for ALL version lists, snapshot sets and levels.  Versions a hard delete or replace erased never
+   come back; no retained version is lost. *)
+Definition compact_key_history_stmt : Prop :=
+  forall (bottom : bool) (now : N) (snaps : list N) (vs : list ver) (s : N),
+    desc vs -> asc snaps -> (forall v, In v vs -> 0 < vseq v) ->
+    (In s snaps \/ top vs <= s) ->
+    history_at (compact_key bottom true 0 now snaps vs) s = history_at vs s.
+
+(* finite retention: nothing erased comes back, and every version lost is outside the window *)
+Definition compact_key_history_retention_stmt : Prop :=
+  forall (bottom : bool) (retention now : N) (snaps : list N) (vs : list ver) (s : N),
+    desc vs -> asc snaps -> (forall v, In v vs -> 0 < vseq v) ->
+    (In s snaps \/ top vs <= s) ->
+    let out := history_at (compact_key bottom true retention now snaps vs) s in
+    (forall v, In v out -> In v (history_at vs s)) /\
+    (forall v, In v (history_at vs s) -> ~ In v out -> 0 < retention /\ retention < now - vts v).
